@@ -52,13 +52,13 @@ ASSUMPTIONS = [
 ]
 FLOORS = {
     "quick": {"setting.enumerated": 120, "roundtrip.compare": 6000, "style.keys": 6000, "reject.assign": 2500, "reject.read": 700,
-              "rename": 30, "rename.into-settings-holding-another-value": 24, "copy.equal": 300, "copy.independent": 300, "default.explicit": 120, "subset.case": 120,
+              "rename": 30, "reject.read-under-old-name": 20, "rename.into-settings-holding-another-value": 24, "copy.equal": 300, "copy.independent": 300, "default.explicit": 120, "subset.case": 120,
               "structured.value": 55, "flaglist.roundtrip": 30,
               "copy.modified-instance": 250, "copy.modified-instance-subclass": 6, "second.generation": 800, "all.changed": 600,
               "plugin.option": 20, "plugin.default": 25, "hook:Setting.addOptions": 2000, "hook:Setting.changeDefault": 4000,
               "hook:SettingsWriter.writeYaml": 6000, "hook:SettingsReader._applySettings": 20000, "hook:Setting.setValue": 20000},
     "thorough": {"setting.enumerated": 120, "roundtrip.compare": 40000, "style.keys": 40000, "reject.assign": 10000, "reject.read": 5000,
-                 "rename": 100, "rename.into-settings-holding-another-value": 80, "copy.equal": 4000, "copy.independent": 4000, "default.explicit": 120, "subset.case": 3600,
+                 "rename": 100, "reject.read-under-old-name": 20, "rename.into-settings-holding-another-value": 80, "copy.equal": 4000, "copy.independent": 4000, "default.explicit": 120, "subset.case": 3600,
                  "structured.value": 2000, "flaglist.roundtrip": 500,
                  "copy.modified-instance": 800, "copy.modified-instance-subclass": 6, "second.generation": 8000, "all.changed": 600,
                  "plugin.option": 20, "plugin.default": 25, "hook:Setting.addOptions": 10000, "hook:Setting.changeDefault": 20000,
@@ -1020,12 +1020,13 @@ def check_reject_assign(ctx, cs, name, label, bad, rule, how="cs[name]=v"):
     return False
 
 
-def check_reject_read(ctx, cs, name, label, bad):
-    """A settings file holding `bad` for `name` must make the reader raise and keep the previous value."""
+def check_reject_read(ctx, cs, name, label, bad, key=None):
+    """A settings file holding `bad` for `name` (written under `key`, an old name of the setting, when given) must make the reader
+    raise and keep the previous value."""
     rec = ctx.rec
     s = ctx.D[name]
     try:
-        text, parsed = yaml_doc(name, bad)
+        text, parsed = yaml_doc(key or name, bad)
     except Exception:
         rec.skip("near-miss value not expressible in YAML by the harness")
         return
@@ -1034,7 +1035,7 @@ def check_reject_read(ctx, cs, name, label, bad):
         return
     before = canon(held(cs, name))
     prev = show(held(cs, name))
-    rec.hit("reject.read")
+    rec.hit("reject.read" if key is None else "reject.read-under-old-name")
     try:
         quiet_load(cs, text)
     except Exception:
@@ -1047,7 +1048,7 @@ def check_reject_read(ctx, cs, name, label, bad):
         rec.violation("reject/accepted-invalid/read/%s" % skind(s), "reading a file with %s: %s (%s) was accepted: now holds %s" % (name, show(bad), label, show(held(cs, name))),
                       {"setting": name, "class": label, "text": text[:300], "schema": show(s.schema)})
     else:
-        rec.violation("reject/read-no-error/%s" % skind(s), "reading a file with the invalid %s: %s raised nothing (value silently ignored)" % (name, show(bad)),
+        rec.violation("reject/read-no-error/%s%s" % (skind(s), "/under-old-name" if key else ""), "reading a file with the invalid %s: %s raised nothing (value silently ignored)" % (key or name, show(bad)),
                       {"setting": name, "class": label, "text": text[:300]})
 
 
@@ -1404,9 +1405,16 @@ def do_renames(ctx, rec, rng, spec, only=""):
     for new, old in renames:
         s = ctx.D[new]
         vals = []
+        bads = []
         for lab, v in base_pool() + [rand_labelled(rng) for _ in range(40)]:
             if admits(s, v) and must_reject(s, v) is None and in_domain(new, v):
                 vals.append((lab, v))
+            elif not admits(s, v) or must_reject(s, v) is not None:
+                bads.append((lab, v))
+        # a value the setting cannot hold is refused under the old name exactly as under the current one
+        rng.shuffle(bads)
+        for lab, v in bads[:4]:
+            check_reject_read(ctx, settings.Settings(), new, lab, v, key=old)
         rng.shuffle(vals)
         done, seen = 0, set()
         for lab, v in vals:
